@@ -195,6 +195,70 @@ def run(prog, check):
     check.ob('C20.R2', '%s::decoration-consumed' % ps.key, deco, ps.where,
              'decorative equations are carried over (appended to the endogenous block)' if deco else
              'decorative equations of a reduced block are dropped', 'generator with equation reduction on')
+    # every emission starts from empty lists (a generator object may emit more than once)
+    g_ge = cfgmod.build(ge)
+    for L in sorted(list_appended_attrs(ge.node)):
+        resets = [n for n in g_ge.stmt_nodes() if n.kind == 'stmt' and isinstance(n.ast, ast.Assign) and
+                  isinstance(n.ast.targets[0], ast.Attribute) and n.ast.targets[0].attr == L and isinstance(n.ast.value, ast.List)
+                  and not n.ast.value.elts]
+        apps = [n for n in g_ge.stmt_nodes() if n.kind == 'stmt' and any(
+            isinstance(c, ast.Call) and call_name(c) == 'append' and isinstance(c.func.value, ast.Attribute) and c.func.value.attr == L
+            for c in ast.walk(n.ast))]
+        ok = bool(resets) and all(any(g_ge.dominates(r, a) for r in resets) for a in apps)
+        check.ob('C20.R2', '%s::fresh-list-per-emission(%s)' % (ge.key, L), ok, ge.where,
+                 'self.%s is re-created empty before it is filled' % L if ok else
+                 'self.%s is appended to without being reset: a second emission from the same generator doubles every entry' % L,
+                 'gen.main(a.py); gen.main(b.py) on one generator object: every column appears twice')
+    # the convergence measure inside the generated module agrees with the generator's own (tested) CalcError
+    tmpl = None
+    for n in ast.walk(gen_cls.module.tree):
+        if isinstance(n, ast.Constant) and isinstance(n.value, str) and 'class SFCModel' in n.value:
+            tmpl = n
+    if tmpl is None:
+        raise AnalysisError('module template not found')
+    import re as _re
+    lines = tmpl.value.replace('$$$', '"""').split('\n')
+    out_lines, prev_indent = [], ''
+    for ln in lines:
+        if _re.match(r'^\s*(<[A-Z_]+>|VAR_DECLARATION|ITERATOR)\s*$', ln):
+            out_lines.append(prev_indent + 'pass')
+            continue
+        ln = _re.sub(r'<[A-Z_]+>', 'PLACEHOLDER', ln).replace('MAXTIME', '0')
+        if ln.strip():
+            prev_indent = ln[:len(ln) - len(ln.lstrip())]
+        out_lines.append(ln)
+    src = '\n'.join(out_lines)
+    try:
+        ttree = ast.parse(src)
+    except SyntaxError as e:
+        raise AnalysisError('module template is not parseable after placeholder substitution: %s' % e)
+    tcalc = [f for c in ast.walk(ttree) if isinstance(c, ast.ClassDef) for f in c.body if isinstance(f, ast.FunctionDef) and f.name == 'CalcError']
+    own = gen_cls.methods.get('CalcError')
+    if not tcalc or own is None:
+        raise AnalysisError('CalcError not found in the template / the generator')
+
+    def body_dump(fn):
+        body = [st for st in fn.body if not (isinstance(st, ast.Expr) and isinstance(st.value, ast.Constant))]
+        return [ast.dump(st) for st in body]
+    same = body_dump(tcalc[0]) == body_dump(own.node)
+    # each pair contributes abs(a - b)
+    per_pair = any(isinstance(a, ast.AugAssign) and isinstance(a.op, ast.Add) and isinstance(a.value, ast.Call) and call_name(a.value) == 'abs'
+                   and isinstance(a.value.args[0], ast.BinOp) and isinstance(a.value.args[0].op, ast.Sub) for a in ast.walk(tcalc[0]))
+    check.ob('C20.R2', '%s::template-CalcError-agrees' % gen_cls.key, same and per_pair, '%s:%d' % (gen_cls.module.rel, tmpl.lineno),
+             'the generated CalcError is the sum of abs(new - old) over the vector, identical to the generator\'s own' if (same and per_pair) else
+             'the CalcError emitted into the generated module differs from IterativeMachineGenerator.CalcError / is not a sum of absolute differences: '
+             'offsetting movements cancel and the sweep stops early', 'a block with mirror entries such as ASSET = 2*M, LIAB = -2*M')
+    # the stop test of the generated sweep uses that measure against the tolerance, with an iteration cap
+    runstep = [f for c in ast.walk(ttree) if isinstance(c, ast.ClassDef) for f in c.body if isinstance(f, ast.FunctionDef) and f.name == 'RunOneStep']
+    ok_loop = False
+    if runstep:
+        for w in ast.walk(runstep[0]):
+            if isinstance(w, ast.While) and 'Err_Tolerance' in unparse(w.test) and any(isinstance(x, ast.Raise) for x in ast.walk(w)) and \
+                    any(isinstance(c, ast.Call) and call_name(c) == 'CalcError' for c in ast.walk(w)):
+                ok_loop = True
+    check.ob('C20.R2', '%s::template-sweep-loop' % gen_cls.key, ok_loop, '%s:%d' % (gen_cls.module.rel, tmpl.lineno),
+             'the generated sweep iterates until CalcError <= Err_Tolerance and raises at the cap' if ok_loop else
+             'the generated sweep loop lost its error test or its cap', 'a non-converging block')
     # ---- R3 ----------------------------------------------------------------------------------------
     acc = discover_accessors(prog)
     base = [f for f in acc['renderer'] if f.cls is not None and f.cls.name == 'BaseSolver']
@@ -222,3 +286,12 @@ def run(prog, check):
     check.floor('C20.R1', 2)
     check.floor('C20.R2', 10)
     check.floor('C20.R3', 4)
+
+
+def list_appended_attrs(fn):
+    out = set()
+    for c in ast.walk(fn):
+        if isinstance(c, ast.Call) and call_name(c) == 'append' and isinstance(c.func.value, ast.Attribute) and \
+                isinstance(c.func.value.value, ast.Name) and c.func.value.value.id == 'self':
+            out.add(c.func.value.attr)
+    return out
